@@ -579,6 +579,22 @@ carquet_status_t parquet_parse_file_metadata(
             return dec.status;
         }
 
+        /* A known field id carrying another wire type is not that field: skip
+         * it like an unknown one instead of decoding its bytes as if it were. */
+        {
+            static const thrift_type_t expected[7] = {
+                THRIFT_TYPE_STOP, THRIFT_TYPE_I32, THRIFT_TYPE_LIST, THRIFT_TYPE_I64,
+                THRIFT_TYPE_LIST, THRIFT_TYPE_LIST, THRIFT_TYPE_BINARY
+            };
+            if (field_id >= 1 && field_id <= 6) {
+                if (type != expected[field_id]) {
+                    thrift_skip(&dec, type);
+                    continue;
+                }
+                metadata->fields_present |= 1u << field_id;
+            }
+        }
+
         switch (field_id) {
             case 1:  /* version */
                 metadata->version = thrift_read_i32(&dec);
